@@ -33,3 +33,11 @@ package flavors
 //@   ensures first-declaring-component-decides: forall j :: (0 <= j && j < len(obj.inherit) && has(obj.inherit[j].defaultVars, k) && (forall i :: (0 <= i && i < j) ==> !has(obj.inherit[i].defaultVars, k))) ==> (result0 == (v == obj.inherit[j].defaultVars[k]))
 //@   ensures not-declared-not-inherited: (forall j :: (0 <= j && j < len(obj.inherit)) ==> !has(obj.inherit[j].defaultVars, k)) ==> !result0
 //@   loop rangeindex: invariant none-so-far: forall i :: (0 <= i && i <= rangeindex) ==> !has(obj.inherit[i].defaultVars, k)
+
+// C11: a flavor declared with gettable / settable instance variables gets an
+// accessor of its own for each of them, defined on the flavor itself as a primary
+// method whatever its components already answer to that message (its own
+// combination comes first in precedence order, however the history went).
+//@ func flavors.processFlavorOptions
+//@   property C11
+//@   on-call DefMethod accessors-are-the-flavors-own-primary-methods: $arg1 == ""
